@@ -117,6 +117,10 @@ CLI_EXTRA_TEMPLATES = [
     "%Trim(0, left){x}", "%Trim(1){x}", "%Pad(0, left){x}", "%Count(-1)", "%Count(step=0)", "%Upper()", "%Name(){x}{y}",
     "%Count(" + "9" * 4301 + ")", "%Upper{" * 70 + "x" + "}" * 70, "%Round(1, up){1}", "%AsInt(3){1}", "%Collapse(''){x}",
     "%Replace('('){x}", "%Remove('['){x}", "%Name", "%", "%(", "%.Name()", "x|y", "|", "%Name()|", "%Name()|x",
+    # unusual but grammatical shapes: whatever the verdict, it must be a verdict (0 or 3), never a traceback
+    "%Count(start=1, start=2)", "%Trim(3, left, left){x}", "%Pad(2, right, right=false){x}", "%Upper{}", "%Strip{}", "|%Upper()",
+    "%Count(){}", "%Size(){}", "%Upper(){%Upper{}}", "%Trim(TRUE){x}", "%Trim(1, LEFT){x}", "%Count(0x10)", "%Count(1_0)",
+    "%Name()\u2028x", "a\x0bb", "%Upper(){a\x0cb}", "%Replace('\n', ' '){x}",
 ]
 EXPR_TEMPLATES = ["%Size() > 0", "%Name() +", "%Size() + 'x'", "1/0", "%Size() if len(%Name()) > 1 else %Name()", "lambda: 0",
                   "None", "%Name()", "(", ")", "%Name() == 'a' or 1/0", "[%Size()]", "{%Name(): 1}", "%Size() .real", "yield",
